@@ -170,6 +170,7 @@ type halfConn struct {
 
 func (hc *halfConn) setErrorLocked(err error) error {
 	hc.err = err
+	verifSetErr(hc, err)
 	return err
 }
 
@@ -194,6 +195,7 @@ func (hc *halfConn) changeCipherSpec() error {
 	for i := range hc.seq {
 		hc.seq[i] = 0
 	}
+	verifCCS(hc)
 	return nil
 }
 
@@ -281,6 +283,7 @@ type cbcMode interface {
 // success boolean, the number of bytes to skip from the start of the record in
 // order to get the application payload, and an optional alert value.
 func (hc *halfConn) decrypt(b *block) (ok bool, prefixLen int, alertValue alert) {
+	defer verifDec(hc, hc.seq, b.data[0], &ok, &alertValue)
 	// pull out payload
 	payload := b.data[recordHeaderLen:]
 
@@ -450,6 +453,7 @@ func (hc *halfConn) encrypt(b *block, explicitIVLen int) (bool, alert) {
 	n := len(b.data) - recordHeaderLen
 	b.data[3] = byte(n >> 8)
 	b.data[4] = byte(n)
+	verifEnc(hc, b.data, explicitIVLen)
 	hc.incSeq()
 
 	return true, 0
